@@ -537,7 +537,7 @@ class dir_archive(archive):
         _dir = self._getdir(key)
         # take the entry out of the listing in one step, then delete it:
         # a half-deleted entry is never visible to a reader (or after a crash)
-        _tmp = self._getdir(TEMP+hash(random(), 'md5'))
+        _tmp = self._getdir(TEMP+hash((os.getpid(), random()), 'md5'))
         try: os.rename(_dir, _tmp)
         except OSError: _tmp = _dir
         rmtree(_tmp, self=True, ignore_errors=True)
@@ -616,7 +616,7 @@ class dir_archive(archive):
         return memo
     def _store(self, key, value, input=False):
         "store output (and possibly input) in a subdirectory"
-        _key = TEMP+hash(random(), 'md5')
+        _key = TEMP+hash((os.getpid(), random()), 'md5')
         # create an input file when key is not suitable directory name
         if self._fname(key) != key: input=True #XXX: errors if protocol=0,1?
         # create a temporary directory, and dump the results
@@ -777,7 +777,7 @@ class file_archive(archive):
         """create an archive from the given dictionary"""
         if memo == None: return
         filename = self.__state__['id']
-        _filename = os.path.join(os.path.dirname(os.path.abspath(filename)), TEMP+hash(random(), 'md5'))
+        _filename = os.path.join(os.path.dirname(os.path.abspath(filename)), TEMP+hash((os.getpid(), random()), 'md5'))
         # create a temporary file, and dump the results
         try:
             if self.__state__['serialized']:
@@ -1863,7 +1863,7 @@ if hdf:
           """create an archive from the given dictionary"""
           if memo == None: return
           filename = self.__state__['id']
-          _filename = os.path.join(os.path.dirname(os.path.abspath(filename)), TEMP+hash(random(), 'md5')) if new else filename
+          _filename = os.path.join(os.path.dirname(os.path.abspath(filename)), TEMP+hash((os.getpid(), random()), 'md5')) if new else filename
           # create a temporary file, and dump the results
           f = None
           try:
@@ -2313,7 +2313,7 @@ if hdf:
           return memo
       def _store(self, key, value, input=False):
           "store output (and possibly input) in a subdirectory"
-          _key = TEMP+hash(random(), 'md5')
+          _key = TEMP+hash((os.getpid(), random()), 'md5')
           # create an input file when key is not suitable directory name
           if self._fname(key) != key: input=True #XXX: errors if protocol=0,1?
           # create a temporary directory, and dump the results
